@@ -16,8 +16,10 @@ EXTENDS Integers, Sequences, FiniteSets, TLC, Json
 
 CONSTANTS Shapes, Fmts, MaxInvalid, Variant, EmitOn
 
-VARIABLES fmt, shape, invalid, hdr, body, keep, partial, res, phase
-vars == <<fmt, shape, invalid, hdr, body, keep, partial, res, phase>>
+VARIABLES fmt, shape, invalid, hdr, body, keep, partial, res, phase,
+          dxv,   \* abstract id of the map's lateral spacing (1, 2, ...); the header carries it
+          gen    \* 1: first write of a fresh map; 2: the map that was read back, re-calibrated, and written again
+vars == <<fmt, shape, invalid, hdr, body, keep, partial, res, phase, dxv, gen>>
 
 R == shape[1]
 C == shape[2]
@@ -26,7 +28,7 @@ N == R * C
 
 \* writer: sample t (1-based) of the body is the cell ...
 BodyCell(t) == <<R - ((t - 1) \div C), ((t - 1) % C) + 1>>                 \* flipud, then row-major
-WriteHdr == IF fmt = "codev" /\ Variant = "swapdims" THEN <<R, C>> ELSE <<C, R>>   \* <<first, second>> dimension field
+WriteHdr == IF fmt = "codev" /\ Variant = "swapdims" THEN <<R, C, dxv>> ELSE <<C, R, dxv>>   \* <<first, second>> dimension fields, spacing
 WriteBody == [t \in 1..N |-> [cell |-> BodyCell(t), inv |-> BodyCell(t) \in invalid]]
 
 \* reader: dimensions from the header, then the sample that lands in out[i][j]
@@ -38,19 +40,19 @@ Src(i, j) == IF fmt = "zygo" /\ Variant = "flatflip"
 
 Init == /\ fmt \in Fmts /\ shape \in Shapes
         /\ invalid \in {S \in SUBSET Cells : Cardinality(S) <= MaxInvalid}
-        /\ hdr = <<0, 0>> /\ body = << >> /\ keep = 0 /\ partial = FALSE
-        /\ res = [k |-> "none"] /\ phase = "new"
+        /\ hdr = <<0, 0, 0>> /\ body = << >> /\ keep = 0 /\ partial = FALSE
+        /\ res = [k |-> "none"] /\ phase = "new" /\ dxv = 1 /\ gen = 1
 
 Write == /\ phase = "new" /\ hdr' = WriteHdr /\ body' = WriteBody /\ keep' = N /\ phase' = "written"
-         /\ UNCHANGED <<fmt, shape, invalid, partial, res>>
+         /\ UNCHANGED <<fmt, shape, invalid, partial, res, dxv, gen>>
 
 Truncate(k, p) == /\ phase = "written" /\ k \in 0..(N - 1) /\ keep' = k /\ partial' = p /\ phase' = "cut"
-                  /\ UNCHANGED <<fmt, shape, invalid, hdr, body, res>>
+                  /\ UNCHANGED <<fmt, shape, invalid, hdr, body, res, dxv, gen>>
 
 \* what reading the (possibly cut) file yields in the specified design
 Missing == {p \in (1..RdRows) \X (1..RdCols) : Src(p[1], p[2]) > keep}
 ReadOk(warn) ==
-   [k |-> "ok", warned |-> warn, shape |-> <<RdRows, RdCols>>,
+   [k |-> "ok", warned |-> warn, shape |-> <<RdRows, RdCols>>, dx |-> hdr[3],
     cells |-> [i \in 1..RdRows |-> [j \in 1..RdCols |->
                   IF Src(i, j) \in 1..keep THEN body[Src(i, j)].cell ELSE <<0, 0>>]],
     invalid |-> {p \in (1..RdRows) \X (1..RdCols) :
@@ -63,10 +65,15 @@ Read ==
             ELSE IF Variant = "silenttoken" /\ keep = N - 1 /\ partial THEN
                      [ReadOk(FALSE) EXCEPT !.invalid = {p \in @ : Src(p[1], p[2]) <= keep}]   \* cut token parsed as a number
             ELSE [k |-> "exc"]                                                         \* too few tokens / cut token: rejected
-  /\ UNCHANGED <<fmt, shape, invalid, hdr, body, keep, partial>>
+  /\ UNCHANGED <<fmt, shape, invalid, hdr, body, keep, partial, dxv, gen>>
 
+\* the map that was read back is re-calibrated to a new spacing and saved again (a history, not a fresh object)
+Recal == /\ phase = "read" /\ keep = N /\ gen = 1 /\ res.k = "ok"
+         /\ shape' = res.shape /\ invalid' = res.invalid /\ dxv' = 2 /\ gen' = 2
+         /\ phase' = "new" /\ res' = [k |-> "none"] /\ partial' = FALSE
+         /\ UNCHANGED <<fmt, hdr, body, keep>>
 DoTruncate == \E k \in 0..(N - 1), p \in BOOLEAN : Truncate(k, p)
-Next == Write \/ Read \/ DoTruncate
+Next == Write \/ Read \/ DoTruncate \/ Recal
 Spec == Init /\ [][Next]_vars
 
 ---------------------------------------------------------------------------
@@ -76,13 +83,14 @@ RoundTrip == (phase = "read" /\ Intact) =>
    /\ res.shape = shape
    /\ \A p \in Cells : res.cells[p[1]][p[2]] = p            \* every sample at its own position: orientation and shape
    /\ res.invalid = invalid
+   /\ res.dx = dxv                                        \* the spacing of the map as it was when it was written
 NoSilentTruncation == (phase = "read" /\ ~Intact) =>
    \/ res.k = "exc"
    \/ /\ res.k = "ok" /\ res.warned
       /\ \A t \in (keep + 1)..N : body[t].cell \in res.invalid     \* every sample whose bytes are gone is invalid
       /\ \A p \in Cells : (p \notin res.invalid) => res.cells[p[1]][p[2]] = p
 
-Rec == [fmt |-> fmt, shape |-> shape, invalid |-> invalid, keep |-> keep, partial |-> partial, n |-> N,
+Rec == [gen |-> gen, dxv |-> dxv, fmt |-> fmt, shape |-> shape, invalid |-> invalid, keep |-> keep, partial |-> partial, n |-> N,
         missing |-> {body[t].cell : t \in (keep + 1)..N}, design |-> res.k]
 Emit == (EmitOn /\ phase = "read") => PrintT(<<"EMIT", ToJson(Rec)>>)
 =============================================================================
